@@ -151,8 +151,48 @@ func (s *Sym) MakeFn(name string, args ...*RF) *RF {
 		} else if c != nil && c.Name == "cmp!=" {
 			return s.MakeFn("ite", s.MakeFn("cmp==", c.Args...), args[2], args[1])
 		}
+	case "slice":
+		// x[:] denotes the same sequence as x
+		if len(args) == 4 {
+			blank := true
+			for _, a := range args[1:] {
+				if at := a.SingleAtom(); at == nil || at.Kind != "var" || at.Name != "_" {
+					blank = false
+				}
+			}
+			if blank {
+				return args[0]
+			}
+		}
+	case "idx":
+		// an element of a sub-slice is the element of the sliced value at the shifted index:
+		// x[lo:hi][o] = x[lo+o]
+		if len(args) == 2 {
+			if sl := args[0].SingleAtom(); sl != nil && sl.Name == "slice" && len(sl.Args) == 4 {
+				lo := sl.Args[1]
+				if la := lo.SingleAtom(); la != nil && la.Kind == "var" && la.Name == "_" {
+					return s.MakeFn("idx", sl.Args[0], args[1])
+				}
+				return s.MakeFn("idx", sl.Args[0], lo.Add(args[1]))
+			}
+		}
 	case "len":
 		if len(args) == 1 {
+			// len(x[lo:hi]) = hi - lo (hi defaults to len(x), lo to 0)
+			if sl := args[0].SingleAtom(); sl != nil && sl.Name == "slice" && len(sl.Args) == 4 {
+				isBlank := func(r *RF) bool {
+					a := r.SingleAtom()
+					return a != nil && a.Kind == "var" && a.Name == "_"
+				}
+				hi := sl.Args[2]
+				if isBlank(hi) {
+					hi = s.MakeFn("len", sl.Args[0])
+				}
+				if isBlank(sl.Args[1]) {
+					return hi
+				}
+				return hi.Sub(sl.Args[1])
+			}
 			if at := args[0].SingleAtom(); at != nil && at.Name == "copyof" {
 				return s.MakeFn("len", at.Args[0])
 			}
